@@ -25,7 +25,21 @@ CFG = {
                  "outcome must be text that re-validates as UTF-8 or an error value, never a panic. REC — 14 programs that recurse without bound unless the "
                  "component depth guard stops them (self / mutual / component->include->component / body including the caller / through super(), blocks, "
                  "set-capture, filter section, kwargs) are rendered (every template, block and component) in a CHILD PROCESS with a 30 s limit: each must "
-                 "end in an error value; death by signal (stack overflow) or timeout is a violation. UNK — 570+ (reference kind x syntactic site) "
+                 "end in an error value; death by signal (stack overflow) or timeout is a violation (the family also holds include cycles that pass through "
+                 "inherited blocks, nested blocks and component bodies: rejected at registration or an error value). EPM — error-position matrix: ~110 "
+                 "value-producing expression forms (literals, variables, paths, subscripts, slices with every combination of present/absent operands, "
+                 "optional chaining, unary/binary/concat results, ternary, and/or results, filter/function/test results, comprehensions, spreads, "
+                 "component calls, nestings of these) x ~170 consumers that can fail on the value with a span-carrying rendering error (either operand of "
+                 "every arithmetic and ordering operator, in, negation, subscript base/index, every slice operand, input and kwargs of rejecting filters, "
+                 "tests and functions, for/comprehension iterables, spreads, typed component arguments, printing, conditions) x 4 contexts binding the "
+                 "names to different kinds x autoescape: render_str must return text or an error value, and Display / Debug / the source chain of the "
+                 "error must not panic either. HIST — engines with a history: from an accepted base set (components, inheritance, include), every "
+                 "rejection reason (unknown filter/test/function/component/include, missing/self parent, block not in parent, syntax, include cycle, "
+                 "duplicate component, a needed component/block removed) x every batch shape (alone, replacing a used template, the component library "
+                 "losing/changing/gaining components, a new library, repeated names in one batch, parent replaced), also repeated after a good update, "
+                 "plus random histories; after EVERY add (accepted or rejected) every template, block and component is rendered through render, render_to, "
+                 "render_block, render_component, render_str and get_component_definition, in a child process with call markers: a panic or a process "
+                 "death is a violation with the history as replay. UNK — 570+ (reference kind x syntactic site) "
                  "templates with a name nobody registered must be rejected by add_raw_templates and render_str; an accepted one must not fail at "
                  "render time with a not-registered/not-found error or a panic.",
     "trusted_base": TB_COMMON + [
@@ -38,7 +52,12 @@ CFG = {
         "the name lists FILTERS/TESTS/FUNCTIONS of harness/src/bin/c07.rs are confirmed against the engine on every run (each name accepted, "
         "fresh names rejected)",
     ],
-    "modelled": ["vm/interpreter.rs interpret(): per-instruction effect on State.stack / for_loops / capture_buffers (Model/VM.v, abstracted by Model/StackCheck.v astep)",
+    "modelled": ["NOT MODELLED: the VM's span bookkeeping (SpanRange per stack slot, combine_spans, Chunk::expand_span, the `expect(\"to have a span for error\")` "
+                 "of rendering_error!) — Model/VM.v has error classes only; `spans_present` of DESIGN §6 is not stated. That every reachable error site finds a "
+                 "span is covered by the EPM oracle only",
+                 "NOT MODELLED: the registry history (add/replace/rollback in Tera::add_raw_templates / finalize_templates); world_checked is about one "
+                 "finalized world. Rendering after rejected and accepted updates is covered by the HIST oracle (and by C10's atomicity model)",
+                 "vm/interpreter.rs interpret(): per-instruction effect on State.stack / for_loops / capture_buffers (Model/VM.v, abstracted by Model/StackCheck.v astep)",
                  "vm/interpreter.rs Break: jump to ForLoop.end_ip, resolved statically to the enclosing Iterate target",
                  "value/mod.rs Value::format / format_map, utils.rs escape_html (Model/VFormat.v) at scalar level; float printing and lossy Bytes display are not modelled"],
     "assumptions": [
